@@ -237,7 +237,7 @@ func removeGraphs(dir string) {
 
 func run(c *vf.Ctx) {
 	g := gitx.New(c.Scratch)
-	n := c.N(28, 250)
+	n := c.N(28, 180)
 	vf.Parallel(n, 6, func(i int) {
 		r := c.Rand("dag", i)
 		dc := genDAG(r)
@@ -324,8 +324,23 @@ func run(c *vf.Ctx) {
 			if field, det := compareIndex(idx, truth, order, wantV2); field != "" {
 				c.Fail("read:"+field+":"+variant, fmt.Sprintf("%s (%s)", det, shape), replay)
 			}
-			if int(idx.MaximumNumberOfHashes()) != len(order) || len(idx.Hashes()) != len(order) {
-				c.Fail("read:hash-count:"+variant, fmt.Sprintf("graph lists %d/%d hashes, repository has %d commits (%s)", idx.MaximumNumberOfHashes(), len(idx.Hashes()), len(order), shape), replay)
+			// the graph holds every commit reachable from a ref; a --stdin-commits layer may add an
+			// imported commit that no branch reaches, nothing else
+			imported := map[string]bool{}
+			for _, id := range ids {
+				imported[id] = true
+			}
+			hs := idx.Hashes()
+			bad := int(idx.MaximumNumberOfHashes()) != len(hs) || len(hs) < len(order) || len(hs) > len(ids)
+			seen := map[string]bool{}
+			for _, h := range hs {
+				if !imported[h.String()] || seen[h.String()] {
+					bad = true
+				}
+				seen[h.String()] = true
+			}
+			if bad {
+				c.Fail("read:hash-list:"+variant, fmt.Sprintf("graph lists %d/%d hashes (duplicates or unknown ids?), repository has %d reachable of %d imported commits (%s)", idx.MaximumNumberOfHashes(), len(hs), len(order), len(ids), shape), replay)
 			}
 			idx.Close()
 		}
@@ -433,12 +448,12 @@ func run(c *vf.Ctx) {
 		}
 	})
 	c.Extra("git_invocations", gitx.Calls.Load())
-	c.Floor("DAGs", c.Counter("dags"), c.N(27, 240))
-	c.Floor("git-written graphs read by go-git", c.Counter("git_written_graphs_read"), c.N(25, 225))
-	c.Floor("go-git-written graphs given to git commit-graph verify", c.Counter("git_verify_calls"), c.N(25, 225))
-	c.Floor("git-written graphs with an EDGE chunk", c.Counter("git_written_with_EDGE"), c.N(2, 20))
-	c.Floor("git-written graphs with a GDO2 chunk", c.Counter("git_written_with_GDO2"), c.N(2, 15))
-	c.Floor("git-written split chains", c.Counter("git_written_chains"), c.N(3, 25))
+	c.Floor("DAGs", c.Counter("dags"), c.N(27, 172))
+	c.Floor("git-written graphs read by go-git", c.Counter("git_written_graphs_read"), c.N(25, 160))
+	c.Floor("go-git-written graphs given to git commit-graph verify", c.Counter("git_verify_calls"), c.N(25, 160))
+	c.Floor("git-written graphs with an EDGE chunk", c.Counter("git_written_with_EDGE"), c.N(2, 14))
+	c.Floor("git-written graphs with a GDO2 chunk", c.Counter("git_written_with_GDO2"), c.N(2, 10))
+	c.Floor("git-written split chains", c.Counter("git_written_chains"), c.N(3, 18))
 	c.Assume("ground truth (tree, ordered parents, committer time) is git's reading of the commit objects with core.commitGraph=false; generation numbers and corrected commit dates are computed from it by their definition")
 	c.Assume("go-git has no writer for chains (the Encoder can only reference parents inside the same file), so only single files are written by go-git")
 	c.Assume("sha1 repositories only: the Encoder and fileIndex are SHA-1 only (TODO in the source)")
